@@ -51,12 +51,12 @@ Theorem C12_dispatch_predicate : forall (V : Type) (is_var : V -> bool) self ps 
   else G.NewInstance.
 Proof. exact @dispatch_predicate. Qed.
 
-(* --- evaluation: once per candidate binding, exactly the argument values, truth = bool of the call ---
-   F: no open variable shared between two written arguments (each argument over its own or an already bound variable) *)
+(* --- evaluation: once per candidate binding (every extension of b over the open variables of the written arguments,
+   each variable once), exactly the argument values, truth = bool of the call -- for every list of written arguments *)
 Theorem C12_once_per_binding :
   forall (dom : Z -> list Z) (attr : Z -> Z -> Z) (R : Type) (body : list (Z * Z) -> R) (truthy : R -> bool)
          (kwargs : list (Z * arg)) (b : assignment),
-  kwargs <> [] -> NoDup (map fst b) -> NoDup (open_vars b kwargs) ->
+  kwargs <> [] -> NoDup (map fst b) ->
   pred_eval dom attr body truthy kwargs b = spec_eval dom attr body truthy kwargs b.
 Proof. exact @once_per_binding. Qed.
 
@@ -67,7 +67,7 @@ Theorem C12_symbolic_call_function :
   NoDup params -> call_ok params pos kw -> some_var arg_is_symbolic pos kw = true ->
   exists m, G.symbolic_function_wrapper arg_is_symbolic params pos kw = G.MakeVariable G.DecoratedMethod m /\
     (forall rho p, assoc p (call_of attr m rho) = option_map (den attr rho) (python_bind params pos kw p)) /\
-    (forall b, NoDup (map fst b) -> NoDup (open_vars b m) ->
+    (forall b, NoDup (map fst b) ->
                pred_eval dom attr body truthy m b = spec_eval dom attr body truthy m b).
 Proof. exact @symbolic_call_function. Qed.
 
@@ -79,19 +79,22 @@ Theorem C12_symbolic_call_predicate :
     (forall rho p, p <> self ->
        assoc p (call_of attr m rho) = option_map (den attr rho) (python_bind (self :: ps) (inst :: pos) kw p)) /\
     (forall rho, assoc self (call_of attr m rho) = None) /\
-    (forall b, NoDup (map fst b) -> NoDup (open_vars b m) ->
+    (forall b, NoDup (map fst b) ->
                pred_eval dom attr body truthy m b = spec_eval dom attr body truthy m b).
 Proof. exact @symbolic_call_predicate. Qed.
 
-(* --- outside F: two written arguments over the same open variable (K_predshare, finding C01-d):
-   the number of calls differs from the number of candidate bindings and so do the rows *)
-Theorem C12_refuted_predshare :
+(* --- regression statement for finding C01-d (repaired by 3f7e74b): the definition before the repair -- every written
+   argument evaluated independently under the same sources, itertools.product -- made a number of calls different from
+   the number of candidate bindings and returned different rows when two arguments share an open variable; the current
+   definition meets the Spec on the same input *)
+Theorem C12_d_old_product_refuted :
   exists dom attr (body : list (Z * Z) -> bool) kwargs b,
     kwargs <> [] /\ NoDup (map fst b) /\
-    length (pred_eval dom attr body (fun r => r) kwargs b) <> length (spec_eval dom attr body (fun r => r) kwargs b) /\
-    map (fun r => fst (fst r)) (filter (fun r => snd r) (pred_eval dom attr body (fun r => r) kwargs b)) <>
-    map (fun r => fst (fst r)) (filter (fun r => snd r) (spec_eval dom attr body (fun r => r) kwargs b)).
-Proof. exact predshare_refuted. Qed.
+    length (pred_eval_product dom attr body (fun r => r) kwargs b) <> length (spec_eval dom attr body (fun r => r) kwargs b) /\
+    map (fun r => fst (fst r)) (filter (fun r => snd r) (pred_eval_product dom attr body (fun r => r) kwargs b)) <>
+    map (fun r => fst (fst r)) (filter (fun r => snd r) (spec_eval dom attr body (fun r => r) kwargs b)) /\
+    pred_eval dom attr body (fun r => r) kwargs b = spec_eval dom attr body (fun r => r) kwargs b.
+Proof. exact old_product_refuted. Qed.
 
 (* --- regression statements for the defect repaired by 264f917 (C12-a): with the flag the old wrapper relied on
    (merge_args_and_kwargs' default, ignore_first = True) a plain function's positional argument is bound one
@@ -108,21 +111,20 @@ Theorem C12_a_old_flag_misses_variable :
     G._any_of_the_kwargs_is_a_variable (fun b => b) (G.merge_args_and_kwargs params pos kw true) = false.
 Proof. exact old_flag_refuted_dispatch. Qed.
 
-(* non-vacuity: f(p1, p2=.., p3=..) called as f(x.a, p3 = y) with x, y open: well formed, symbolic, inside F,
-   and four calls for the 2 x 2 candidate bindings *)
+(* non-vacuity: f(p1, p2=.., p3=..) called as f(x.a, p3 = x) with x open in BOTH arguments: well formed, symbolic,
+   and exactly two calls for the two candidate bindings of x, each with the values of one and the same x *)
 Example C12_nonvacuous :
-  let params := [1; 2; 3] in let pos := [AAttr (AVar 1) 0] in let kw := [(3, AVar 2)] in
+  let params := [1; 2; 3] in let pos := [AAttr (AVar 1) 0] in let kw := [(3, AVar 1)] in
   let dom := fun x : Z => if Z.eqb x 1 then [100; 101] else [200; 201] in
   NoDup params /\ call_ok params pos kw /\ some_var arg_is_symbolic pos kw = true /\
-  NoDup (open_vars [] (G.merge_args_and_kwargs params pos kw false)) /\
   map (fun r => snd (fst r)) (pred_eval dom (fun f v => v + 1) (fun c => c) (fun _ => true)
                                 (G.merge_args_and_kwargs params pos kw false) []) =
-  [[(1, 101); (3, 200)]; [(1, 101); (3, 201)]; [(1, 102); (3, 200)]; [(1, 102); (3, 201)]].
+  [[(1, 101); (3, 100)]; [(1, 102); (3, 101)]].
 Proof.
   cbv zeta. split; [repeat constructor; simpl; intuition discriminate|].
   split; [split; [simpl; auto | split; [repeat constructor; simpl; tauto|]]|].
   - intros k [<-|[]]. exists 2%nat. split; [reflexivity | simpl; auto].
-  - split; [reflexivity|]. split; [vm_compute; repeat constructor; simpl; intuition discriminate | reflexivity].
+  - split; reflexivity.
 Qed.
 
 Print Assumptions C12_merge_function.
@@ -134,6 +136,6 @@ Print Assumptions C12_dispatch_predicate.
 Print Assumptions C12_once_per_binding.
 Print Assumptions C12_symbolic_call_function.
 Print Assumptions C12_symbolic_call_predicate.
-Print Assumptions C12_refuted_predshare.
+Print Assumptions C12_d_old_product_refuted.
 Print Assumptions C12_a_old_flag_binds_off_by_one.
 Print Assumptions C12_a_old_flag_misses_variable.
